@@ -940,6 +940,7 @@ struct Dumper
     O["file"] = fileOf (R->getLocation ());
     O["l"] = locStr (R->getLocation ());
     O["abstract"] = R->isAbstract ();
+    O["trivdtor"] = R->hasTrivialDestructor ();
     if (auto *S = dyn_cast<ClassTemplateSpecializationDecl> (R))
       {
 	O["tmpl"] = qualName (S->getSpecializedTemplate ());
